@@ -40,12 +40,30 @@ class Case:
             lines = []
             for k, l in enumerate(conv):
                 lines.append(l if rng.random() < 0.6 else synth_stable(rng, self.g, k).replace("syn%d" % k, "q%d" % k))
+        # unusual but valid text: multi-byte UTF-8 characters in read names / comment tags (characters != bytes), and, for a
+        # plain file, CRLF line ends (the tool reads plain files in text mode: universal newlines)
+        self.variant = "ascii"
+        if rng.random() < 0.25:
+            self.variant = rng.choice(["utf8", "utf8", "crlf", "utf8+crlf"]) if not bgzf else "utf8"
+            if "utf8" in self.variant:
+                out = []
+                for l in lines:
+                    f = l.split("\t")
+                    if rng.random() < 0.6:
+                        f[0] = rng.choice(["M\u00fcller_", "\u00b5", "\u8aad\u307f_", ""]) + f[0]
+                    if rng.random() < 0.3:
+                        f.append("co:Z:5\u00b5m filter")
+                    out.append("\t".join(f))
+                lines = out
         self.lines = lines
         self.bgzf = bgzf
         self.gaf = os.path.join(tmp, "v.gaf" + (".gz" if bgzf else ""))
         text = "".join(l + "\n" for l in lines)
         if bgzf:
             gen.write_bgzf(self.gaf, text, block=rng.choice([None, 150, 400]))
+        elif "crlf" in self.variant:
+            with open(self.gaf, "w", newline="") as f:
+                f.write(text.replace("\n", "\r\n"))
         else:
             gen.write_text(self.gaf, text)
         self.offs, self.raw = gen.record_offsets(self.gaf)
@@ -81,7 +99,7 @@ class Case:
         return {"gfa": self.tok, "stable": self.stable, "lines": self.lines}
 
     def replay(self):
-        return {"gfa": self.gtext, "gaf": self.lines[:60], "stable": self.stable, "bgzf": self.bgzf}
+        return {"gfa": self.gtext, "gaf": self.lines[:60], "stable": self.stable, "bgzf": self.bgzf, "text_variant": self.variant}
 
 
 def index_to_ordinals(case, ind):
@@ -211,6 +229,7 @@ def c04_c05(ck, prop, tmp, n):
                     sample={"query": query, "format": fmt, "selected": impl, "records": len(case.lines)})
             ck.count("selects:%s" % ("none" if nsel == 0 else "all" if nsel == len(case.lines) else "some"))
             ck.count("format:%s" % fmt)
+            ck.count("text:%s" % case.variant)
             replay = dict(case.replay(), query=query, format=fmt, impl=out if not isinstance(out, list) else out[:40], expected=r["expected"])
             if impl == "crash" or impl is None:
                 ck.violation("view failed with an internal error or returned a line that is no input record: %s" % (out if isinstance(out, str) else "foreign line"), replay)
